@@ -724,9 +724,33 @@ def gen_udp():
     return out
 
 
+def gen_quic():
+    """transport parameters of the QUIC client and the cache discipline of the QUIC connector (C19)"""
+    q = strip_rust(open(os.path.join(REPO, "src/common/quic.rs")).read())
+    cc = fn_body(q, "create_quic_client")
+    ka = re.search(r"keep_alive_interval\s*\(\s*Some\s*\(\s*Duration\s*::\s*from_secs\s*\(\s*(\d+)\s*\)", cc)
+    idle = re.search(r"max_idle_timeout\s*\(\s*Some\s*\(\s*Duration\s*::\s*from_secs\s*\(\s*(\d+)\s*\)", cc)
+    conn = strip_rust(open(os.path.join(REPO, "src/connectors/quic.rs")).read())
+    raw = open(os.path.join(REPO, "src/connectors/quic.rs")).read()
+    cnt = fn_body(conn, "connect")
+    clears = bool(re.search(r"starts_with\s*\(", cnt)) and bool(re.search(r"clear_connection\s*\(\s*\)", cnt)) and bool(re.search(r'starts_with\(\s*"quic:"\s*\)', raw))
+    hs_raw = raw[raw.find("async fn handshake"):raw.find("async fn get_connection")]
+    open_bi_tagged = bool(re.search(r'open_bi\s*\(\s*\)\s*\.\s*await\s*\.\s*context\s*\(\s*"quic:', hs_raw))
+    gc = fn_body(conn, "get_connection")
+    creates_when_empty = bool(re.search(r"if\s+c\s*\.\s*is_none\s*\(\s*\)\s*\{[^}]*create_connection", gc))
+    out = "(* GENERATED by gen/translate.py from src/common/quic.rs, src/connectors/quic.rs.  Do not edit. *)\n"
+    out += "From Coq Require Import NArith.\n"
+    out += "Definition client_keep_alive_s : N := %d%%N.\n" % (int(ka.group(1)) if ka else 0)
+    out += "Definition client_idle_timeout_s : N := %d%%N.\n" % (int(idle.group(1)) if idle else 0)
+    out += "Definition quic_errors_clear_the_cache : bool := %s.\n" % ("true" if clears else "false")
+    out += "Definition open_bi_error_is_tagged_quic : bool := %s.\n" % ("true" if open_bi_tagged else "false")
+    out += "Definition connection_created_when_cache_empty : bool := %s.\n" % ("true" if creates_when_empty else "false")
+    return out
+
+
 def main(which=None):
     changed = []
-    gens = {"Gen_panics.v": lambda: gen_panics()[0], "Gen_profile.v": gen_profile, "Gen_ladder.v": gen_ladder, "Gen_reload.v": gen_reload, "Gen_lb.v": gen_lb, "Gen_callbacks.v": gen_callbacks, "Gen_relay.v": gen_relay, "Gen_startup.v": gen_startup, "Gen_locks.v": gen_locks, "Gen_udp.v": gen_udp}
+    gens = {"Gen_panics.v": lambda: gen_panics()[0], "Gen_profile.v": gen_profile, "Gen_ladder.v": gen_ladder, "Gen_reload.v": gen_reload, "Gen_lb.v": gen_lb, "Gen_callbacks.v": gen_callbacks, "Gen_relay.v": gen_relay, "Gen_startup.v": gen_startup, "Gen_locks.v": gen_locks, "Gen_udp.v": gen_udp, "Gen_quic.v": gen_quic}
     for name, fn in gens.items():
         if which and name not in which:
             continue
